@@ -76,6 +76,18 @@ CHECKS = {
     design_ref="DESIGN.md §5 C19",
     note="Trusted: TLC, harness (serde_yaml round trip through the public types). ParserNode equality is by unserialized id, so structural equality is judged through the re-dump.",
     technique="TLA+ encoding contract (Trace_Dump: reload identity + injectivity) + TLC-enumerated value domain replayed through the real serializer + TLC trace validation"),
+ "C15": dict(
+    category="model_checking",
+    text="TLC samples include cuttings from Gen_Include (a segment of the program moved to f1.s, optionally a nested segment to f2.s and a later one to f3.s, every file with/without trailing newline; fault plans: missing file, unreadable file, self-inclusion, inclusion of the parent). Each tree is linted through the in-memory FileReader API (RVParser::run) and through rva on real directories (--json = all files; --compact = base file + hidden count); Trace_Include validates the recorded diagnostics against Include!Flatten: the multiset of (title, severity, file, line, columns) equals that of the flattened single file mapped back to its origins; for a faulty directive exactly one reader error sits on the directive's line and everything else equals the tree with that line blank.",
+    design_ref="DESIGN.md §5 C15",
+    note="Trusted: TLC, Include.tla, harness MemReader (a correct reader reports already-read files), driver file construction. Parse errors are compared by (severity, file, line) only; reader error messages normalised to their kind.",
+    technique="TLA+ textual-inclusion reference (Include!Flatten/Origin) + TLC-simulated include cuttings and reader faults replayed through library and CLI + TLC trace validation"),
+ "C18": dict(
+    category="model_checking",
+    text="Mixed programs (parse errors + CFG errors + lints, tabs, CR LF, includes), Gen_Flow simulations, faulty files of Gen_Lines and the corpus are run through rva in eight flag combinations of --json/--compact/--no-color/--all-files and through RVParser::run. Trace_Chan is a stateful trace specification: per input all channels must project to the same (severity, title, file, line, columns) list for the same file selection, be sorted by position within each file, have non-empty titles, a hidden-diagnostics count equal to the non-base part, escape-free --no-color output, valid JSON of the documented shape unaffected by other flags, and every pretty excerpt must equal the trimmed source line with the caret run exactly under the reported columns; the severity of a kind is checked to be a function of the kind across the whole trace (state variable sev).",
+    design_ref="DESIGN.md §5 C18",
+    note="Trusted: TLC, driver parsing of the text channels (regular expressions) and Python's JSON parser. JSON has no file selection and is compared with the all-files result.",
+    technique="TLA+ channel-agreement specification (Trace_Chan, stateful severity map) + real rva stdout in every mode recorded as traces + TLC trace validation"),
 }
 PENDING = "check not built yet in this round (planned, see DESIGN.md §5); not claimed until its check is green on the unchanged tree"
 m = {
